@@ -380,7 +380,14 @@ class QSim:
             return {"ev": ev, "ret": self._ret_advance(a, c, op, prev, ev)}
         if a == "PushInsert":
             m = lab["ret"][0]
-            ev = c.start_op("push", lambda k: k.q.push(self._msg(m), HOUR if arg else None))
+            if lab.get("ext"):      # push(message, delay, connection=<caller's>): the caller commits - same two steps
+                def fn(k):
+                    k.q.push(self._msg(m), HOUR if arg else None, connection=k.conn)
+                    k.conn.commit()
+            else:
+                def fn(k):
+                    k.q.push(self._msg(m), HOUR if arg else None)
+            ev = c.start_op("push", fn)
             return {"ev": ev, "ret": jret([m])}
         if a == "PollSelect":
             ev = c.start_op("poll", lambda k: k.q.poll_one())
@@ -454,9 +461,12 @@ class QSim:
 # ======================================================================================================
 # 2. TLC: configurations, state-graph export, trace validation
 # ======================================================================================================
-AS_CODED = {"AllowStaleOps": "TRUE", "FencedOps": "FALSE", "SweepLocked": "TRUE", "ReplayDefaultLimit": "TRUE"}
-INTENDED = {"AllowStaleOps": "FALSE", "FencedOps": "FALSE", "SweepLocked": "FALSE", "ReplayDefaultLimit": "FALSE"}
-REPAIRED = {"AllowStaleOps": "TRUE", "FencedOps": "TRUE", "SweepLocked": "FALSE", "ReplayDefaultLimit": "FALSE"}
+AS_CODED = {"AllowStaleOps": "TRUE", "FencedOps": "FALSE", "SweepLocked": "TRUE", "ReplayDefaultLimit": "TRUE",
+            "DanglingTxn": "TRUE"}
+INTENDED = {"AllowStaleOps": "FALSE", "FencedOps": "FALSE", "SweepLocked": "FALSE", "ReplayDefaultLimit": "FALSE",
+            "DanglingTxn": "TRUE"}
+REPAIRED = {"AllowStaleOps": "TRUE", "FencedOps": "TRUE", "SweepLocked": "FALSE", "ReplayDefaultLimit": "FALSE",
+            "DanglingTxn": "FALSE"}      # = docs/proposed_fixes/C08.diff
 
 SAFETY = ["TypeOK", "Conservation", "OneHolder", "NoStrandedRow", "ClaimBelowLimit"]
 SAFETY_K = ["TypeOK", "Conservation", "OneHolderK", "NoStrandedRowK", "ClaimBelowLimit"]
@@ -825,7 +835,8 @@ def random_history(path: str, clients: list[str], msgs: list[str], seed: int, ns
                 if free:
                     for m in msgs:
                         if m not in obs["db"]["pushed"] and m not in started:
-                            cands.append((3, {"a": "PushInsert", "c": n, "arg": rng.choice([0, 0, 1]), "ret": [m]}))
+                            cands.append((3, {"a": "PushInsert", "c": n, "arg": rng.choice([0, 0, 1]), "ret": [m],
+                                              "ext": rng.random() < 0.4}))
                 if c.held is None:
                     cands.append((3, {"a": "PollSelect", "c": n, "arg": 0, "ret": []}))
                     cands.append((1, {"a": "SweepSelect", "c": n, "arg": 0, "ret": []}))
@@ -1031,6 +1042,10 @@ DEFECTS = {
     "replayLimit": {"switch": "ReplayDefaultLimit", "coded": "TRUE", "fixed": "FALSE", "qmax": QMAX,
                     "cex": dict(nclients=1, nmsgs=1, replays=1, crashes=0, notfound=0, invariants=["NoStrandedRow"]),
                     "cex_switches": {"AllowStaleOps": "FALSE", "SweepLocked": "FALSE"}},
+    # not a defect of C08 but a coded behaviour the binding depends on (observation O1)
+    "danglingTxn": {"switch": "DanglingTxn", "coded": "TRUE", "fixed": "FALSE", "qmax": QMAX, "observation": True,
+                    "cex": dict(nclients=1, nmsgs=1, replays=1, crashes=0, notfound=1, invariants=["NoDanglingTxn"]),
+                    "cex_switches": {"AllowStaleOps": "FALSE", "SweepLocked": "FALSE", "ReplayDefaultLimit": "FALSE"}},
 }
 
 
@@ -1060,18 +1075,24 @@ def plan(tier: str) -> dict:
     mc = [
         # name, switches, kwargs, invariants, properties, workers
         ("intended-3c2m", INTENDED, dict(nclients=3, nmsgs=2, replays=1, crashes=1, notfound=1, delayed=not q,
-                                         schema_max=QMAX, symmetry=True), SAFETY, ACTIONP, 6 if q else 5),
-        ("ascoded-" + ("2c2m" if q else "3c2m"), AS_CODED,
-         dict(nclients=2 if q else 3, nmsgs=2, replays=1, crashes=1, notfound=1, symmetry=True), SAFETY_K, ACTIONP_K,
-         5 if q else 9),
+                                         schema_max=QMAX, symmetry=True), SAFETY, ACTIONP, 5),
         ("repaired-" + ("2c2m" if q else "3c2m"), REPAIRED,
          dict(nclients=2 if q else 3, nmsgs=2, replays=1, crashes=1, notfound=1, schema_max=QMAX, symmetry=True),
          SAFETY, ACTIONP, 3 if q else 5),
     ]
-    if not q:
-        mc.append(("intended-2c2m-fifo-r2", INTENDED, dict(nclients=2, nmsgs=2, replays=2, crashes=2, notfound=1,
-                                                           fifo=True, delayed=True, schema_max=QMAX, symmetry=False),
-                   SAFETY, ACTIONP, 4))
+    if q:
+        mc += [("ascoded-3c1m-q3", AS_CODED, dict(nclients=3, nmsgs=1, replays=1, crashes=1, notfound=1, qmax=3,
+                                                  symmetry=True), SAFETY_K, ACTIONP_K, 4),
+               ("ascoded-2c2m", AS_CODED, dict(nclients=2, nmsgs=2, replays=1, crashes=0, notfound=1, symmetry=True),
+                SAFETY_K, ACTIONP_K, 4)]
+    else:
+        mc += [("ascoded-3c2m", AS_CODED, dict(nclients=3, nmsgs=2, replays=1, crashes=1, notfound=1, symmetry=True),
+                SAFETY_K, ACTIONP_K, 9),
+               ("ascoded-3c1m-q3", AS_CODED, dict(nclients=3, nmsgs=1, replays=2, crashes=1, notfound=1, qmax=3,
+                                                  delayed=True, symmetry=True), SAFETY_K, ACTIONP_K, 4),
+               ("intended-2c2m-fifo-r2", INTENDED, dict(nclients=2, nmsgs=2, replays=2, crashes=2, notfound=1, fifo=True,
+                                                        delayed=True, schema_max=QMAX, symmetry=False),
+                SAFETY, ACTIONP, 4)]
     live = [
         ("live-intended", INTENDED, dict(nclients=2, nmsgs=1, replays=1, crashes=1, notfound=1, schema_max=QMAX), False),
         ("live-ascoded-replay", dict(INTENDED, ReplayDefaultLimit="TRUE"),
@@ -1079,11 +1100,12 @@ def plan(tier: str) -> dict:
     ]
     if q:
         graphs = [
-            # name, nclients, nmsgs, kwargs, share of the replay budget (None = everything)
-            ("g3c1m", 3, 1, dict(replays=0, crashes=0, notfound=0), None),
-            ("g2c1m-replay", 2, 1, dict(replays=1, crashes=0, notfound=1), None),
-            ("g2c1m-crash", 2, 1, dict(replays=1, crashes=1, notfound=0, delayed=True), 0.5),
-            ("g2c2m", 2, 2, dict(replays=0, crashes=0, notfound=0), 0.5),
+            # name, nclients, nmsgs, kwargs, share of the replay budget (None = proportional to #edges);
+            # a graph that is covered before its share is used up passes the rest on to the next ones
+            ("g3c1m", 3, 1, dict(replays=0, crashes=0, notfound=0), 0.3),
+            ("g2c1m-replay", 2, 1, dict(replays=1, crashes=0, notfound=1), 0.3),
+            ("g2c1m-crash", 2, 1, dict(replays=1, crashes=1, notfound=0, delayed=True), 0.2),
+            ("g2c2m", 2, 2, dict(replays=0, crashes=0, notfound=0), 0.2),
         ]
     else:
         graphs = [
@@ -1092,10 +1114,12 @@ def plan(tier: str) -> dict:
             ("g2c1m-crash", 2, 1, dict(replays=1, crashes=1, notfound=1, delayed=True), None),
             ("g3c1m-replay", 3, 1, dict(replays=1, crashes=0, notfound=0), None),
             ("g2c2m", 2, 2, dict(replays=0, crashes=0, notfound=0, delayed=True), None),
-            ("g2c2m-replay", 2, 2, dict(replays=1, crashes=0, notfound=0), 1.0),
+            ("g2c2m-replay", 2, 2, dict(replays=1, crashes=0, notfound=0), None),
         ]
+    if os.environ.get("VERIF_C08_BINDING_ONLY"):     # development aid (mutation runs): skip pure model checking
+        mc, live = [], []
     return {"mc": mc, "live": live, "graphs": graphs,
-            "replay_budget_s": 38 if q else 560, "random_traces": 160 if q else 1600, "random_steps": 80 if q else 120}
+            "replay_budget_s": 30 if q else 560, "random_traces": 160 if q else 1600, "random_steps": 80 if q else 120}
 
 
 def run(pid: str, tier: str, seed: int) -> int:
@@ -1104,10 +1128,17 @@ def run(pid: str, tier: str, seed: int) -> int:
 
     t0 = _time.time()
     rep = Reporter(pid)
+    if os.environ.get("VERIF_C08_PROPOSED"):       # preview: behave as if docs/findings_C08.json were merged
+        with open(os.path.join(os.path.dirname(tlc.SPEC_DIR), "docs", "findings_C08.json")) as fh:
+            rep.findings += [f for f in json.load(fh) if f["status"] == "known"]
     pl = plan(tier)
     base = core.scratch_dir("c08")
     nproc = max(2, min(16, os.cpu_count() or 4))
     pool = mp.get_context("fork").Pool(nproc, initializer=_w_init, initargs=(base,))
+    pool_wal = None
+    if tier == "thorough":      # the same walks once more with journal_mode = WAL (both pools are forked before any thread exists)
+        pool_wal = mp.get_context("fork").Pool(nproc, initializer=_w_init,
+                                               initargs=(base, {"STABILIZE_SQLITE_JOURNAL_MODE": "WAL"}))
     cov: dict = {"tier": tier, "bounds": {"QMax": QMAX, "SchemaMax": SCHEMA_MAX, "clients": "2-3", "messages": "1-2"},
                  "model_checking": [], "liveness": [], "graphs": [], "defects": {}, "samples": []}
     nviol = 0
@@ -1160,6 +1191,10 @@ def run(pid: str, tier: str, seed: int) -> int:
                 rep.machinery_failure(v["machinery"])
                 continue
             hits = [f for f in v["failed"] if d in f["flags"]]
+            if info.get("observation") and v["accepted"] == 1 and not tr["diverged"]:
+                entry["confirmed_on_code"] = True
+                entry["history"] = [f"{x['a']}({x['c']},{x['arg']})" for x in labs]
+                continue
             if v["accepted"] == 1 and hits and not tr["diverged"]:
                 entry["confirmed_on_code"] = True
                 entry["history"] = [f"{x['a']}({x['c']},{x['arg']})" for x in labs]
@@ -1174,14 +1209,20 @@ def run(pid: str, tier: str, seed: int) -> int:
             sw2 = dict(AS_CODED)
             sw2[info["switch"]] = info["fixed"]
             v2 = judge((d, info, labs, clients, tr), sw2)
-            if v2["accepted"] == 1 and not v2["failed"] and not tr["diverged"]:
+            if v2["accepted"] == 1 and not tr["diverged"] and not [f for f in v2["failed"] if d in f["flags"]]:
                 entry["confirmed_on_code"] = False
                 entry["note"] = "the code follows the REPAIRED model for this defect; switch flipped for the binding"
                 switches[info["switch"]] = info["fixed"]
                 print(f"NOTE: recorded defect {d} is not reproduced; the code follows the repaired specification")
             else:
-                rep.machinery_failure(f"counter-example for {d} is followed neither as coded nor as repaired: "
-                                      f"{tr['diverged']} {v['rejected'][:1]} {v2['rejected'][:1]}")
+                rj = (v["rejected"] or [{}])[0]
+                e = rj.get("event") or {}
+                rep.violation(f"the real SqliteQueue follows Queue.tla neither as coded nor as repaired along TLC's shortest "
+                              f"history for '{d}': {tr['diverged'] or ''} step {rj.get('at')} {e.get('a')}({e.get('c')},"
+                              f"{e.get('arg')}) -> {e.get('ret')}",
+                              {"formula": "Conformance", "flags": [], "history": labs, "source": "model-cex-on-code"},
+                              {"kind": "labels", "clients": clients, "nmsgs": info["cex"]["nmsgs"], "labels": labs,
+                               "switches": dict(AS_CODED), "formula": "Conformance", "qmax": info["qmax"]})
         cov["switches_used_for_binding"] = dict(switches)
 
         # ---- graph exports (need the calibrated switches) ---------------------------------------------
@@ -1191,46 +1232,9 @@ def run(pid: str, tier: str, seed: int) -> int:
                            action_constraints=["ExportEdge"], constraints=["DepthBound"], max_depth=200, **kw)
             gjobs.append((name, nc, nm, kw, share, ex.submit(_export_job, name, cfg, base)))
 
-        # ---- collect the model-checking verdicts -----------------------------------------------------
         states = transitions = 0
-        for kind, name, sw, x, fut in jobs:
-            if kind == "mc":
-                _, r = fut.result()
-                states += r.distinct
-                transitions += r.generated
-                ac = action_coverage(r.out)
-                cov["model_checking"].append({"config": name, "switches": sw, "bounds": {k: v for k, v in x.items()},
-                                              "distinct_states": r.distinct, "transitions": r.generated,
-                                              "depth": r.depth, "wall_s": round(r.wall, 1), "exhaustive": r.rc == 0,
-                                              "action_coverage": ac, "violated": r.violated})
-                if r.violated:
-                    nviol += _model_violation(rep, pool, name, r, x, switches)
-                elif r.errors or r.rc != 0:
-                    rep.machinery_failure(f"TLC failed on {name}: " + "\n".join(r.errors[:3]) + r.out[-800:])
-                else:
-                    dead = [a for a in ACTIONS if ac.get(a, 0) == 0 and not (a == "LeaseLapse" and sw is INTENDED)]
-                    if name.startswith(("ascoded", "intended-3c")) and dead:   # vacuity: every action must fire
-                        rep.machinery_failure(f"vacuity: actions never taken in {name}: {dead}")
-            elif kind == "live":
-                _, r = fut.result()
-                states += r.distinct
-                transitions += r.generated
-                bad = bool(r.violated) or bool(re.search(r"Temporal propert\w+ .*violated", r.out))
-                cov["liveness"].append({"config": name, "switches": sw, "distinct_states": r.distinct,
-                                        "property": "MovedAtLimit", "violated": bad, "expected_violated": x,
-                                        "wall_s": round(r.wall, 1)})
-                if (r.errors or r.rc != 0) and not bad:
-                    rep.machinery_failure(f"TLC failed on {name}: " + "\n".join(r.errors[:3]) + r.out[-500:])
-                elif bad and not x:
-                    rep.violation("MovedAtLimit (a message at its limit ends in the DLQ) fails in the intended regime",
-                                  {"formula": "MovedAtLimit", "flags": [], "history": [], "source": "model"},
-                                  {"kind": "model", "config": name, "tail": r.out[-3000:]})
-                elif x and not bad and switches.get("ReplayDefaultLimit") == "TRUE":
-                    rep.machinery_failure(f"{name}: the stranded-row lasso was expected with ReplayDefaultLimit")
-
         # ---- phase 2: replay the exported graphs on the real queue --------------------------------------
         ex_results = [(n, nc, nm, kw, share, f.result()) for n, nc, nm, kw, share, f in gjobs]
-        ex.shutdown()
         budget = pl["replay_budget_s"]
         t_rep = _time.time()
         total_walks = total_steps = 0
@@ -1249,16 +1253,22 @@ def run(pid: str, tier: str, seed: int) -> int:
             transitions += r.generated
             walks = g.cover(random.Random(seed))
             random.Random(seed + 1).shuffle(walks)
-            open_graphs.append({"name": name, "nc": nc, "nm": nm, "kw": kw, "share": share, "g": g, "gfile": gfile,
+            open_graphs.append({"name": name, "nc": nc, "nm": nm, "kw": kw, "share": share or g.nedges, "g": g, "gfile": gfile,
                                 "walks": walks, "states": r.distinct, "edges": g.nedges})
+        if pool_wal is not None:
+            for gi in [x for x in open_graphs if x["name"] in ("g3c1m", "g2c1m-replay")]:
+                w2 = list(gi["walks"])
+                random.Random(seed + 2).shuffle(w2)
+                open_graphs.append(dict(gi, name=gi["name"] + "@WAL", walks=w2, wal=True, share=gi["share"] / 2))
         for gi in open_graphs:
             g = gi["g"]
+            the_pool = pool_wal if gi.get("wal") else pool
             clients = [f"c{i}" for i in range(1, gi["nc"] + 1)]
             left = budget - (_time.time() - t_rep)
             rest = sum(x["share"] for x in open_graphs[open_graphs.index(gi):])
             deadline = _time.time() + max(3.0, left * gi["share"] / rest)
             walks = gi["walks"]
-            chunks = [walks[i:i + 60] for i in range(0, len(walks), 60)]
+            chunks = [walks[i:i + 16] for i in range(0, len(walks), 16)]
             covered = set()
             nw = ns = 0
             bad = []
@@ -1266,13 +1276,13 @@ def run(pid: str, tier: str, seed: int) -> int:
             it = iter(chunks)
             exhausted = False
             while True:
-                while not exhausted and len(pending) < 2 * nproc and _time.time() < deadline:
+                while not exhausted and len(pending) < nproc + 4 and _time.time() < deadline:
                     ch = next(it, None)
                     if ch is None:
                         exhausted = True
                         break
                     payload = [[w[0][0]] + [(js, k2) for _, js, k2 in w] for w in ch]
-                    pending.append(pool.apply_async(w_replay_walks, ((gi["gfile"], clients, payload),)))
+                    pending.append(the_pool.apply_async(w_replay_walks, ((gi["gfile"], clients, payload),)))
                 if not pending:
                     break
                 res = pending.pop(0).get(timeout=900)
@@ -1328,6 +1338,8 @@ def run(pid: str, tier: str, seed: int) -> int:
         acc = ev = 0
         rstates = 0
         per_formula: dict = {}
+        classes: dict = {}
+        seen_tf: set = set()
         for b, v in zip(batches, verdicts):
             if v["machinery"]:
                 rep.machinery_failure(v["machinery"])
@@ -1344,23 +1356,61 @@ def run(pid: str, tier: str, seed: int) -> int:
                               {"formula": "Conformance", "flags": [], "history": labs, "source": "trace"},
                               {"kind": "random", "seed": t["seed"], "clients": clients3, "msgs": msgs2,
                                "steps": pl["random_steps"], "switches": dict(switches), "formula": "Conformance"})
-            first = {}
             for f in v["failed"]:
-                first.setdefault((f["trace"], f["formula"], tuple(f["flags"])), f)
-            for (ti, formula, flags), f in first.items():
-                t = b[ti]
-                labs = [{"a": e["a"], "c": e["c"], "arg": e["arg"], "ret": _ret_list(e["ret"])} for e in t["events"][:f["at"]]]
-                per_formula[formula] = per_formula.get(formula, 0) + 1
-                rep.violation(f"{formula} fails on a history of the real queue (random driver seed {t['seed']}, state {f['at']}, "
-                              f"specification attributes it to {list(flags) or 'nothing recorded'})",
-                              {"formula": formula, "flags": list(flags), "history": labs, "source": "trace"},
-                              {"kind": "random", "seed": t["seed"], "clients": clients3, "msgs": msgs2,
-                               "steps": pl["random_steps"], "switches": dict(switches), "formula": formula})
+                key = (f["formula"], tuple(f["flags"]))
+                per_formula[f["formula"]] = per_formula.get(f["formula"], 0) + (0 if (key, id(b), f["trace"]) in seen_tf else 1)
+                seen_tf.add((key, id(b), f["trace"]))
+                if key not in classes:
+                    classes[key] = (b[f["trace"]], f)
+        for (formula, flags), (t, f) in sorted(classes.items()):
+            labs = [{"a": e["a"], "c": e["c"], "arg": e["arg"], "ret": _ret_list(e["ret"])} for e in t["events"][:f["at"]]]
+            rep.violation(f"{formula} fails on a history of the real queue (random driver seed {t['seed']}, state {f['at']}; "
+                          f"the specification attributes it to {list(flags) or 'nothing recorded'})",
+                          {"formula": formula, "flags": list(flags), "history": labs, "source": "trace"},
+                          {"kind": "random", "seed": t["seed"], "clients": clients3, "msgs": msgs2,
+                           "steps": pl["random_steps"], "switches": dict(switches), "formula": formula})
         cov["random_driver"] = {"traces": n, "accepted_by_tlc": acc, "events": ev, "tlc_states": rstates,
                                 "formula_failures_by_name": per_formula, "wall_s": round(_time.time() - t_rand, 1)}
         if traces and len(cov["samples"]) < 6:
             cov["samples"].append({"random_trace_seed": traces[0]["seed"],
                                    "events": [f"{e['a']}({e['c']},{e['arg']})->{e['ret']}" for e in traces[0]["events"][:30]]})
+        # ---- collect the model-checking verdicts (the jobs ran beside phases 2 and 3) -------------
+        for kind, name, sw, x, fut in jobs:
+            if kind == "mc":
+                _, r = fut.result()
+                states += r.distinct
+                transitions += r.generated
+                ac = action_coverage(r.out)
+                cov["model_checking"].append({"config": name, "switches": sw, "bounds": {k: v for k, v in x.items()},
+                                              "distinct_states": r.distinct, "transitions": r.generated,
+                                              "depth": r.depth, "wall_s": round(r.wall, 1), "exhaustive": r.rc == 0,
+                                              "action_coverage": ac, "violated": r.violated})
+                if r.violated:
+                    nviol += _model_violation(rep, pool, name, r, x, switches)
+                elif r.errors or r.rc != 0:
+                    rep.machinery_failure(f"TLC failed on {name}: " + "\n".join(r.errors[:3]) + r.out[-800:])
+                else:
+                    dead = [a for a in ACTIONS if ac.get(a, 0) == 0 and not (a == "LeaseLapse" and sw is INTENDED)]
+                    if name.startswith(("ascoded-2c2m", "ascoded-3c2m", "intended-3c")) and dead:   # vacuity
+                        rep.machinery_failure(f"vacuity: actions never taken in {name}: {dead}")
+            elif kind == "live":
+                _, r = fut.result()
+                states += r.distinct
+                transitions += r.generated
+                bad = bool(r.violated) or bool(re.search(r"Temporal propert\w+ .*violated", r.out))
+                cov["liveness"].append({"config": name, "switches": sw, "distinct_states": r.distinct,
+                                        "property": "MovedAtLimit", "violated": bad, "expected_violated": x,
+                                        "wall_s": round(r.wall, 1)})
+                if (r.errors or r.rc != 0) and not bad:
+                    rep.machinery_failure(f"TLC failed on {name}: " + "\n".join(r.errors[:3]) + r.out[-500:])
+                elif bad and not x:
+                    rep.violation("MovedAtLimit (a message at its limit ends in the DLQ) fails in the intended regime",
+                                  {"formula": "MovedAtLimit", "flags": [], "history": [], "source": "model"},
+                                  {"kind": "model", "config": name, "tail": r.out[-3000:]})
+                elif x and not bad and switches.get("ReplayDefaultLimit") == "TRUE":
+                    rep.machinery_failure(f"{name}: the stranded-row lasso was expected with ReplayDefaultLimit")
+
+        ex.shutdown()
         states += rstates
         transitions += ev
         cov.update({"states": states, "transitions": transitions,
@@ -1369,8 +1419,10 @@ def run(pid: str, tier: str, seed: int) -> int:
                     "exhaustive": all(m["exhaustive"] for m in cov["model_checking"]),
                     "known_finding_hits": dict(rep.known_hits)})
     finally:
-        pool.terminate()
-        pool.join()
+        for p_ in (pool, pool_wal):
+            if p_ is not None:
+                p_.terminate()
+                p_.join()
         shutil.rmtree(base, ignore_errors=True)
     rc = rep.finish()
     write_evidence(pid, tier, seed, "model_checking", cov, _time.time() - t0, violations=len(rep.violations),
@@ -1421,7 +1473,7 @@ def replay(pid: str, path: str) -> int:
     try:
         db = os.path.join(base, "q.db")
         if doc["kind"] == "labels":
-            tr = run_labels(db, doc["clients"], doc["labels"])
+            tr = run_labels(db, doc["clients"], doc["labels"], None, doc.get("qmax", QMAX))
             nc, nm = len(doc["clients"]), doc["nmsgs"]
         elif doc["kind"] == "random":
             tr = random_history(db, doc["clients"], doc["msgs"], doc["seed"], doc["steps"])
@@ -1431,7 +1483,7 @@ def replay(pid: str, path: str) -> int:
             print("model-level case (no implementation replay):", doc.get("config"))
             print(doc.get("tail", "")[-1500:])
             return 1
-        v = validate_traces([tr], nc, nm, doc["switches"])
+        v = validate_traces([tr], nc, nm, doc["switches"], qmax=doc.get("qmax", QMAX))
         if v["machinery"]:
             print("MACHINERY-FAILURE:", v["machinery"][-2000:])
             return 2
